@@ -13,9 +13,9 @@ from harness.dsreplay import exc_site
 from harness.checks import c19
 
 PLOTS = {"standard": ["-m", "mae", "-x", "leadtime"], "pithist": ["-m", "pithist"], "reliability": ["-m", "reliability", "-r", "2"],
-         "obsfcst": ["-m", "obsfcst", "-x", "leadtime"]}
+         "obsfcst": ["-m", "obsfcst", "-x", "leadtime"], "map": ["-m", "mae", "-type", "map"]}
 # on the multi-axes diagrams only the properties that make sense on every sub-axes are held
-MULTI_PROPS = {"crop", "obsleg", "xlim", "ylim", "xlabel", "ylabel", "labfs", "tickfs", "xrot", "yrot", "figsize", "dpi", "left", "right", "top", "bottom", "margins", "format", "pixels"}
+MULTI_PROPS = {"crop", "clabel", "clim", "cmap", "obsleg", "xlim", "ylim", "xlabel", "ylabel", "labfs", "tickfs", "xrot", "yrot", "figsize", "dpi", "left", "right", "top", "bottom", "margins", "format", "pixels"}
 
 
 def _figure(files, base, extra, out):
@@ -131,10 +131,10 @@ def _formats(ctx):
 
 
 def run(ctx):
-    ctx.rule = ("case = a set of <= 2 appearance options (37 options, two values each) on a standard plot, or one option on pithist / "
+    ctx.rule = ("case = a set of <= 2 appearance options (45 options, two values each) on a standard plot, or one option on pithist / obsfcst / the map view / "
                 "reliability; owned properties are compared with the option value, all properties no given option controls with the "
                 "option-free baseline figure; non-trivial = two options, or a multi-axes diagram")
-    ctx.assumptions = ["figures are compared as matplotlib artist properties, not pixels", "-xticklabels/-yticklabels/-clabel/-clim/-cmap/-maptype/-obsleg/-af are not yet in the option table"]
+    ctx.assumptions = ["figures are compared as matplotlib artist properties, not pixels", "-maptype needs map tiles that are not available offline and is not in the option table; -simple is a per-diagram switch (C16 uses it)"]
     cfg = "MC_Figure_k2"
     res = tlc.run("MC_Figure", cfg, tag=ctx.pid + "_" + cfg, timeout_s=900)
     ctx.add_tlc(cfg, res, {"K": 2})
